@@ -3,6 +3,9 @@
 gap only if EVERY property anchored in f stays silent on it. Prints those, then checks them against the pinned tests."""
 import json, os, subprocess, sys, tempfile, shutil, concurrent.futures as cf
 V='/verif'
+BIN=os.environ.get('XS_BIN',V+'/bin/typcheck')   # a development binary while a run uses bin/typcheck
+GM=os.environ.get('XS_GM','/tmp/gm')
+OPS=[o for o in os.environ.get('XS_OPS','').split(',') if o]   # restrict to these operators
 props=[json.loads(l) for l in open(V+'/properties.jsonl')]
 files_of={p['id']:p['anchors']['files'] for p in props}
 by_file={}
@@ -11,7 +14,7 @@ for pid,fs in files_of.items():
 def check(prop, file, mut):
     out=tempfile.mkdtemp(prefix='vt.')
     shutil.copy(V+'/known_findings.json', out); shutil.copy(V+'/properties.jsonl', out)
-    r=subprocess.run([V+'/bin/typcheck','-prop',prop,'-verif',out,'-nofixtures','-overlay',f'{file}={mut}'],capture_output=True,text=True)
+    r=subprocess.run([BIN,'-prop',prop,'-verif',out,'-nofixtures','-overlay',f'{file}={mut}'],capture_output=True,text=True)
     shutil.rmtree(out)
     return r.returncode
 only=sys.argv[1:]
@@ -27,12 +30,13 @@ cands=[]
 for p in props:
     pid=p['id']
     if only and pid not in only: continue
-    d=f'/tmp/gm/{pid}'
+    d=f'{GM}/{pid}'
     shutil.rmtree(d,ignore_errors=True); os.makedirs(d)
-    subprocess.run([V+'/bin/typcheck','-prop',pid,'-genmutants',d],capture_output=True,env=dict(os.environ,SWEEP_MAX='20000'))
+    subprocess.run([BIN,'-prop',pid,'-genmutants',d],capture_output=True,env=dict(os.environ,SWEEP_MAX='20000'))
     idx=[l.rstrip('\n').split('\t') for l in open(d+'/index.txt')] if os.path.exists(d+'/index.txt') else []
     jobs=[]
     for name,file,desc in idx:
+        if OPS and desc.split(':')[0] not in OPS: continue
         key=(file,desc)
         if key in seen: continue
         seen.add(key)
@@ -51,12 +55,12 @@ for p in props:
                 cands.append((pid,)+j)
     print(pid,'mutants',len(jobs),'cross-survivors so far',len(cands),flush=True)
 # tests
-wt='/tmp/wt/scratch'
+wt=os.environ.get('XS_WT','/tmp/wt/scratch')
 env=dict(os.environ,GOFLAGS='-mod=mod',GOPROXY='off',GOSUMDB='off',GOTOOLCHAIN='local')
 env.pop('GOWORK',None)
 subprocess.run(['git','-C',wt,'checkout','-q','--','.'])
 for pid,name,file,desc in cands:
-    shutil.copy(f'/tmp/gm/{pid}/{name}', f'{wt}/{file}')
+    shutil.copy(f'{GM}/{pid}/{name}', f'{wt}/{file}')
     try:
         r=subprocess.run(['go','test','-vet=off','-count=1','./'+os.path.dirname(file) if os.path.dirname(file) else '.'],cwd=wt,env=env,capture_output=True,text=True,timeout=120)
         rc=r.returncode
@@ -64,5 +68,6 @@ for pid,name,file,desc in cands:
         rc=99
     subprocess.run(['git','-C',wt,'checkout','-q','--','.'])
     tag='TESTS-PASS' if rc==0 else 'tests-kill'
-    if rc==0 and desc in triaged: tag='triaged   '
-    print(tag, pid, desc, ('# '+triaged[desc]) if desc in triaged and rc==0 else '', flush=True)
+    tk=[k for k in triaged if desc.startswith(k)]   # keys are description prefixes (operator: file:line)
+    if tk: tag='triaged   ' if rc==0 else 'triaged-tk'
+    print(tag, pid, desc, ('# '+triaged[tk[0]]) if tk else '', flush=True)
